@@ -343,9 +343,9 @@ Proof. vm_compute. reflexivity. Qed.
 (* Toy primitives                                                                                  *)
 (* ---------------------------------------------------------------------------------------------- *)
 Module ToyVmess.
-  Definition toy_mix (m : bytes) : N := fold_left (fun h b => (h * 1000003 + b + 1) mod 2 ^ 256) m 7.
-  Definition toy_hash32 (m : bytes) : bytes := put_be 32 (toy_mix m).
-  Definition toy_hash16 (m : bytes) : bytes := put_be 16 (toy_mix m).
+  Definition toy_mix (m : bytes) : N := fold_left (fun h b => N.land (h * 1000003 + b + 1) 18446744073709551615) m 7.
+  Definition toy_hash16 (m : bytes) : bytes := let h := put_be 8 (toy_mix m) in h ++ h.
+  Definition toy_hash32 (m : bytes) : bytes := toy_hash16 m ++ toy_hash16 (m ++ [1]).
   Definition toy_tag (k n a : bytes) : bytes := toy_hash16 (n ++ k ++ a).
   Definition toy_seal (c : N) (k n a m : bytes) : bytes := m ++ toy_tag k n a.
   Definition toy_open (c : N) (k n a ct : bytes) : option bytes :=
@@ -372,7 +372,7 @@ Module ToyVmess.
   Lemma bytes_eqb_refl a : bytes_eqb a a = true.
   Proof. unfold bytes_eqb. destruct (list_eq_dec N.eq_dec a a); [reflexivity|contradiction]. Qed.
   Lemma toy_tag_len k n a : lenN (toy_tag k n a) = 16.
-  Proof. unfold toy_tag, toy_hash16. apply lenN_put_be. Qed.
+  Proof. unfold toy_tag, toy_hash16. cbn zeta. rewrite lenN_app, lenN_put_be. reflexivity. Qed.
   Lemma toy_xor_invol : forall b k, toy_xor k (toy_xor k b) = b.
   Proof.
     induction b as [|x t IH]; intros k; [reflexivity|]. destruct k as [|y k']; cbn [toy_xor].
